@@ -103,6 +103,8 @@ mod request;
 mod rkyv_tooling;
 mod server;
 mod utils;
+#[cfg(datacake_verif)]
+pub mod verif;
 
 use std::collections::hash_map::DefaultHasher;
 use std::hash::{Hash, Hasher};
